@@ -222,3 +222,122 @@ def spec_size_ok(spec, limit=1800):
         if size > limit:
             return False
     return True
+
+
+# --------------------------------------------------------------------------------------------
+# driver-side operation interpreter (shared by C01, C06, C07, C12)
+
+value_st = st.fixed_dictionaries(
+    {
+        "t": short_text,
+        "n": number_value(),
+        "s": st.booleans(),
+        "l": st.integers(0, 3),
+        "b": st.none() | st.binary(max_size=24).map(lambda b: b.hex()),
+        "f": st.sampled_from([".bin", ".fits", "", ".x.y"]),
+    }
+)
+
+
+def driver_op():
+    i = st.integers(0, 11)
+    return st.one_of(
+        st.fixed_dictionaries({"op": st.just("assign"), "d": i, "v": i, "e": i, "val": value_st}),
+        st.fixed_dictionaries({"op": st.just("assign"), "d": i, "v": i, "e": i, "val": value_st}),
+        st.fixed_dictionaries({"op": st.just("set_value"), "d": i, "v": i, "e": i, "val": value_st}),
+        st.fixed_dictionaries({"op": st.just("bool"), "d": i, "v": i, "e": i, "val": value_st}),
+        st.fixed_dictionaries({"op": st.just("state"), "d": i, "v": i, "val": value_st}),
+        st.fixed_dictionaries({"op": st.just("venable"), "d": i, "v": i, "on": st.booleans()}),
+        st.fixed_dictionaries({"op": st.just("genable"), "d": i, "g": i, "on": st.booleans()}),
+        st.fixed_dictionaries({"op": st.just("select"), "d": i, "v": i, "e": i}),
+    )
+
+
+def python_value(kind, val):
+    """The Python value a driver author would assign for an element of `kind`."""
+    if kind == "Text":
+        return val["t"]
+    if kind == "Number":
+        return val["n"]
+    if kind == "Switch":
+        return "On" if val["s"] else "Off"
+    if kind == "Light":
+        return gen.STATES[val["l"] % 4]
+    if kind == "BLOB":
+        from indi.device import values
+
+        if val["b"] is None:
+            return None
+        return values.BLOB(bytes.fromhex(val["b"]), val["f"])
+    raise AssertionError(kind)
+
+
+class Deployment:
+    """Drivers built from specs on one router, plus the model of the enable flags."""
+
+    def __init__(self, specs, router):
+        self.specs = specs
+        self.router = router
+        self.drivers = [build(s, router=router) for s in specs]
+        for s, drv in zip(specs, self.drivers):
+            for attr, g in effective_groups(s).items():
+                grp = getattr(drv, attr, None)
+                if grp is None or getattr(grp, "name", None) != g["name"]:
+                    from harness.core import Failure
+
+                    raise Failure(
+                        f"definition:inherited-group-missing:depth{len(s['chain'])}",
+                        f"driver built from an inheritance chain of {len(s['chain'])} classes: attribute {attr!r} is {grp!r}, expected group {g['name']!r}",
+                    )
+        self.vectors = [all_vectors(s) for s in specs]  # per device [(g, v)]
+        self.genabled = [{g["attr"]: g["enabled"] for g in effective_groups(s).values()} for s in specs]
+        self.venabled = [{(g["attr"], v["attr"]): v["enabled"] for g, v in vs} for vs in self.vectors]
+
+    def pick(self, op):
+        d = op["d"] % len(self.specs)
+        vs = self.vectors[d]
+        g, v = vs[op["v"] % len(vs)]
+        return d, g, v
+
+    def instance(self, d, g, v):
+        return getattr(getattr(self.drivers[d], g["attr"]), v["attr"])
+
+    def is_enabled(self, d, g, v):
+        return self.genabled[d][g["attr"]] and self.venabled[d][(g["attr"], v["attr"])]
+
+    def apply(self, op):
+        """Apply one driver-side op. Returns a label. Library exceptions propagate."""
+        t = op["op"]
+        if t == "genable":
+            d = op["d"] % len(self.specs)
+            groups = list(effective_groups(self.specs[d]).values())
+            g = groups[op["g"] % len(groups)]
+            getattr(self.drivers[d], g["attr"]).enabled = op["on"]
+            self.genabled[d][g["attr"]] = op["on"]
+            return "genable"
+        d, g, v = self.pick(op)
+        inst = self.instance(d, g, v)
+        if t == "venable":
+            inst.enabled = op["on"]
+            self.venabled[d][(g["attr"], v["attr"])] = op["on"]
+            return "venable"
+        if t == "state":
+            inst.state_ = gen.STATES[op["val"]["l"] % 4]
+            return "state"
+        e = v["elements"][op["e"] % len(v["elements"])]
+        el = getattr(inst, e["attr"])
+        kind = v["kind"]
+        if t == "select":
+            if kind != "Switch":
+                return "noop"
+            inst.selected_value = e["name"]
+            return "select"
+        if t == "bool" and kind == "Switch":
+            el.bool_value = op["val"]["s"]
+            return "bool"
+        val = python_value(kind, op["val"])
+        if t == "set_value":
+            el.set_value(val)
+            return f"set_value-{kind}"
+        el.value = val
+        return f"assign-{kind}"
